@@ -665,6 +665,82 @@ theorem shared_never_stranded (cfg : RCfg) (hc : cfg.increfBeforeSend = true) (h
     simp at h1
     omega
 
+/-- the same from ANY state the protocol can be in (invariants hold): whatever happens next, unreferenced ⇒ freed -/
+theorem never_stranded_from (cfg : RCfg) (hc : cfg.increfBeforeSend = true) (hk : cfg.recvKnownDecref = true)
+    (hd : cfg.deinitDecref = true) (hz : cfg.decrefFreesAtZero = true) (acts : List RAct) (s0 : RSt)
+    (hi : RInv s0) (hr : RReach s0) (hl : RLive s0) :
+    let s := rrun cfg acts s0
+    s.holds = [] → s.transit = 0 → s.freed = true := by
+  intro s hh ht
+  have h := rrun_inv_live cfg hc hk hd hz acts s0 hi hr hl
+  cases hf : s.freed with
+  | true => rfl
+  | false =>
+    have h1 := h.1.1 hf
+    have h2 := h.2 hf
+    rw [hh, ht] at h1
+    simp at h1
+    omega
+
+theorem rrun_append (cfg : RCfg) (a b : List RAct) (s : RSt) : rrun cfg (a ++ b) s = rrun cfg b (rrun cfg a s) := by
+  simp [rrun, List.foldl_append]
+
+/-- sweeps by every holder (none of which references the object any more) empty the table list and leave `transit` alone -/
+theorem sweeps_empty_holds (cfg : RCfg) : ∀ (l : List Nat) (s : RSt), s.holds = l → l.Nodup → (∀ t, s.reach t = false) →
+    (rrun cfg (l.map RAct.sweep) s).holds = [] ∧ (rrun cfg (l.map RAct.sweep) s).transit = s.transit ∧
+      (∀ t, (rrun cfg (l.map RAct.sweep) s).reach t = false) := by
+  intro l
+  induction l with
+  | nil => intro s hh _ hre; simp [rrun, hh, hre]
+  | cons t ts ih =>
+    intro s hh hnd hre
+    have hmem : t ∈ s.holds := by rw [hh]; exact List.mem_cons_self
+    have hstep : rstep cfg s (.sweep t) =
+        { s with holds := s.holds.erase t, refcount := s.refcount - 1, freed := s.freed || (s.refcount - 1 == 0) } := by
+      simp [rstep, hmem, hre t]
+    have e : rrun cfg ((t :: ts).map RAct.sweep) s = rrun cfg (ts.map RAct.sweep) (rstep cfg s (.sweep t)) := rfl
+    rw [e, hstep]
+    have herase : s.holds.erase t = ts := by rw [hh]; simp
+    exact ih { s with holds := s.holds.erase t, refcount := s.refcount - 1, freed := s.freed || (s.refcount - 1 == 0) }
+      herase (List.nodup_cons.mp hnd).2 hre
+
+/-- finalizer runs of the carriers of all undelivered copies bring `transit` to 0 and leave the table list alone -/
+theorem discards_empty_transit (cfg : RCfg) : ∀ (n : Nat) (s : RSt), s.transit = n →
+    (rrun cfg (List.replicate n RAct.discard) s).transit = 0 ∧ (rrun cfg (List.replicate n RAct.discard) s).holds = s.holds := by
+  intro n
+  induction n with
+  | zero => intro s h; simp [rrun, h]
+  | succ n ih =>
+    intro s h
+    have hne : s.transit ≠ 0 := by omega
+    have e : rrun cfg (List.replicate (n + 1) RAct.discard) s = rrun cfg (List.replicate n RAct.discard) (rstep cfg s .discard) := rfl
+    rw [e]
+    by_cases hdd : cfg.deinitDecref = true
+    · have := ih (rstep cfg s .discard) (by simp [rstep, hne, hdd]; omega)
+      refine ⟨this.1, ?_⟩
+      rw [this.2]; simp [rstep, hne, hdd]
+    · have hdf : cfg.deinitDecref = false := by simpa using hdd
+      have := ih (rstep cfg s .discard) (by simp [rstep, hne, hdf]; omega)
+      refine ⟨this.1, ?_⟩
+      rw [this.2]; simp [rstep, hne, hdf]
+
+/-- ★ released after the last reference is dropped, undelivered messages included: from ANY state the protocol can be in,
+    once no thread references the object any more, the collectors of the threads that list it and the finalizers of the
+    channels that still carry a copy - sweeps first, then the carriers - leave it freed (whoever comes last frees it) -/
+theorem shared_released_after_drops_and_discards (cfg : RCfg) (hc : cfg.increfBeforeSend = true) (hk : cfg.recvKnownDecref = true)
+    (hd : cfg.deinitDecref = true) (hz : cfg.decrefFreesAtZero = true) (s : RSt) (hi : RInv s) (hr : RReach s) (hl : RLive s)
+    (hnd : s.holds.Nodup) (hre : ∀ t, s.reach t = false) :
+    (rrun cfg (s.holds.map RAct.sweep ++ List.replicate s.transit RAct.discard) s).freed = true := by
+  have h1 := sweeps_empty_holds cfg s.holds s rfl hnd hre
+  have h2 := discards_empty_transit cfg s.transit (rrun cfg (s.holds.map RAct.sweep) s) h1.2.1
+  have hfin := never_stranded_from cfg hc hk hd hz (s.holds.map RAct.sweep ++ List.replicate s.transit RAct.discard) s hi hr hl
+  apply hfin
+  · rw [rrun_append, h2.2, h1.1]
+  · rw [rrun_append]; exact h2.1
+
+example : (rrun { increfBeforeSend := true, recvKnownDecref := true }
+    ([.send 0, .send 0, .recv 1, .drop 0, .drop 1] ++ ([1, 0].map RAct.sweep ++ List.replicate 1 RAct.discard)) {}).freed = true := by decide
+
 /-- the clean-up unmarshal decrements WITHOUT finalizing at zero (repo e480e68 and before): thread 0 puts the object into a
     message nobody takes, drops it and collects; then the carrying channel is collected: count 0, in no table, in no
     message - and not freed.  Replayed on the implementation: corpus/C08/undelivered_shared_released.janet. -/
